@@ -560,6 +560,9 @@ public:
         copy_data(mat, uplo, shift);
 
         const RealScalar alpha = (1.0 + std::sqrt(17.0)) / 8.0;
+        // The status describes this call: without this a 1x1 matrix (no elimination
+        // step at all) kept NotComputed, or the status of an earlier call
+        m_info = CompInfo::Successful;
         Index k = 0;
         for (k = 0; k < m_n - 1; k++)
         {
